@@ -408,7 +408,8 @@ def _exhaustive_small():
 
 def cases(rng: random.Random, tier: str):
     out = [dict(c, shape="corpus") for c in CORPUS]
-    n_struct, n_rand = (100000, 200000) if tier == "thorough" else (QUICK_STRUCTURED, QUICK_RANDOM)
+    n_struct, n_rand = {"thorough": (100000, 200000), "escalated": (QUICK_STRUCTURED, QUICK_RANDOM // 4)}.get(
+        tier, (QUICK_STRUCTURED, QUICK_RANDOM))
     gens = [f for f, w in STRUCTURED for _ in range(w)]
     for _ in range(n_struct):
         c = rng.choice(gens)(rng)
